@@ -2,3 +2,5 @@ import Nervus.Model.Bytes
 import Nervus.Model.OKey
 import Nervus.Spec.OrderedValue
 import Nervus.Props.C27
+import Nervus.Model.ExtId
+import Nervus.Props.C32
